@@ -162,7 +162,8 @@ func c19MintSide(w *wworld.World, wi int) (unspent, pending uint64, detail strin
 			continue
 		}
 		for _, k := range t.Keysets {
-			for c := uint32(0); c < 400; c++ {
+			gap := 0
+			for c := uint32(0); c < 20000; c++ {
 				s, rhex := nut13Pair(ww.Mnemonic, k, c)
 				if s == "" {
 					break
@@ -170,11 +171,13 @@ func c19MintSide(w *wworld.World, wi int) (unspent, pending uint64, detail strin
 				b := c19B(s, rhex)
 				amt, ok := t.Signed[b]
 				if !ok {
-					if c > 120 {
-						break // far beyond any counter used in these searches
+					gap++
+					if gap > 350 {
+						break // beyond the 300-counter horizon of any restore: nothing of this seed can be further out
 					}
 					continue
 				}
+				gap = 0
 				y := world.Y(s)
 				switch {
 				case t.Spent[y]:
